@@ -18,6 +18,16 @@ class Finding(object):
         self.defect = defect
 
 
+def _counter_step(x):
+    """+c / -c when the setattr event x is  self.a = self.a +/- c, else None"""
+    v = x["value"]
+    if v[0] == "binop" and v[1] in ("+", "-") and v[3][0] == "const" and \
+            isinstance(v[3][1], (int, float)) and not isinstance(v[3][1], bool) and \
+            v[2][0] == "attr" and v[2][2] == x["attr"]:
+        return v[3][1] if v[1] == "+" else -v[3][1]
+    return None
+
+
 def _site(e):
     return "%s:%d" % (e["site"][0], e["site"][1])
 
@@ -78,6 +88,19 @@ class E4(object):
                          "%s objects must only be created by the get-or-create of "
                          "%s.%s; a second construct site gives two live objects for "
                          "one key" % (vcls, owner, attr))
+            if r.get("factory"):
+                fac, fcall = r["factory"]
+                for f in repo.all_functions():
+                    for node in ast.walk(f.node):
+                        if isinstance(node, ast.Call) and \
+                                isinstance(node.func, ast.Attribute) and \
+                                node.func.attr == fac.name and node is not fcall:
+                            self.add("construct_once", "%s constructed through %s in %s" % (
+                                vcls, fac.name, f.qualname),
+                                "%s:%d" % (repo.modules[f.module].path, node.lineno), False,
+                                "%s objects must only be created by the get-or-create of "
+                                "%s.%s; the factory is also called here, which gives an "
+                                "object the registry does not know" % (vcls, owner, attr))
             # key == id argument
             init = repo.method(vcls, "__init__")
             key_expr = r["key_expr"]
@@ -165,7 +188,7 @@ class E4(object):
     def _owner_only(self):
         repo = self.repo
         regattrs = {}
-        for (owner, attr) in list(self.registries) + [("Mailbox", "_listeners")]:
+        for (owner, attr) in list(self.registries) + [self.model.names.listeners]:
             regattrs[attr] = owner
         for mod in repo.modules.values():
             for cname, cd in list(mod.classes.items()) + [(None, None)]:
@@ -250,11 +273,27 @@ class E4(object):
 
     def _rule_u(self):
         seen_ev = set()
+        # a registry whose objects are never dropped is trivially holder-safe
+        # (positive control: its get-or-create store must have been seen)
+        evicted = set((owner, attr) for (owner, attr, e, p, loops) in self.evictions)
+        for (owner, attr), r in sorted(self.registries.items()):
+            if (owner, attr) in evicted:
+                continue
+            if not self._store_guarded_events(owner, attr):
+                continue
+            self.add("rule_u", "eviction %s.%s: none" % (owner, attr), "", True,
+                     "objects are never dropped from %s.%s: every handle stays the "
+                     "registered object" % (owner, attr))
         for (owner, attr, e, p, loops) in self.evictions:
             if self._created_here(e):
                 continue
-            key = (e["site"], tuple(sorted(self._guard_attrs(
-                e, self.registries[(owner, attr)]["value_cls"]))))
+            # one verdict per eviction site, call chain, guard set and
+            # "holders were notified first" (the same statement reached through
+            # another caller, or on a path that skipped the notification, is a
+            # different eviction)
+            key = (e["site"], e["stack"], tuple(sorted(self._guard_attrs(
+                e, self.registries[(owner, attr)]["value_cls"], p))),
+                self._stop_callbacks_before(e, p) is None)
             if key in seen_ev:
                 continue
             seen_ev.add(key)
@@ -302,10 +341,12 @@ class E4(object):
             return
         # (a) guarded eviction: guard reads attributes of the evicted object and
         # every retention site writes one of them
-        guard_attrs = self._guard_attrs(e, vcls)
+        guard_attrs = self._guard_attrs(e, vcls, p)
         if guard_attrs:
             missing = []
             late = []
+            steps = {}
+            self._steps = steps
             for (re_, rp) in sites:
                 if self._is_transient_site(re_, rp, hattr):
                     continue
@@ -322,7 +363,16 @@ class E4(object):
                         hit = True
                     if x["k"] == "setattr" and x["obj"] == re_["value"] and \
                             x["attr"] in guard_attrs:
-                        hit = True
+                        # the update must make the guard hold: a counter goes up
+                        # by a positive amount, a flag / field becomes truthy
+                        step = _counter_step(x)
+                        if step is not None:
+                            hit = step > 0
+                            if hit:
+                                steps.setdefault(x["attr"], set()).add(step)
+                        else:
+                            hit = x["value"] != ("const", None) and \
+                                x["value"] != ("const", False) and x["value"] != ("const", 0)
                     if hit:
                         wrote = True
                         break
@@ -409,25 +459,45 @@ class E4(object):
                 return True
         return rp.outcome.kind != "return"
 
-    def _guard_attrs(self, e, vcls):
+    def _guard_attrs(self, e, vcls, p=None):
         """attributes of objects of class vcls mentioned by the path conditions
         in effect at the eviction"""
         attrs = set()
-        # only the conditions decided inside the function that performs the
-        # eviction control it (earlier conditions of the path do not)
+        # only the conditions decided since the function that performs the
+        # eviction was entered control it (earlier conditions of the path do
+        # not); conditions decided inside helpers / properties it calls count
         lo = hi = None
+        start = None
+        if p is not None:
+            for x, _ in all_events(p):
+                if x is e:
+                    break
+                if x["k"] == "call" and x["callee"] == e["func"]:
+                    start = len(x["pc"])
         for f in self.repo.all_functions():
             if f.qualname == e["func"]:
                 lo, hi = f.node.lineno, getattr(f.node, "end_lineno", f.node.lineno)
                 fpath = self.repo.modules[f.module].path
-        for (t, b, site) in e["pc"]:
-            if lo is not None and not (site[0] == fpath and lo <= site[1] <= hi):
+        for idx, (t, b, site) in enumerate(e["pc"]):
+            if start is not None:
+                if idx < start:
+                    continue
+            elif lo is not None and not (site[0] == fpath and lo <= site[1] <= hi):
                 continue
-            for x in _walk(t):
-                if x[0] == "reg" and x[1][0] == "obj" and x[1][1] == vcls:
-                    attrs.add(x[2])
-                if x[0] == "attr" and x[1][0] == "obj" and x[1][1] == vcls:
-                    attrs.add(x[2])
+            terms = [t]
+            if any(x[0] == "merge" for x in _walk(t)):
+                # the tested value was computed by an effect-free callee (a
+                # helper or a @property): what it read is in its alternatives
+                from .events import expand_merges
+                for (apc, aval) in expand_merges(self.model.interp, t, ()):
+                    terms.append(aval)
+                    terms.extend(c[0] for c in apc)
+            for tt in terms:
+                for x in _walk(tt):
+                    if x[0] == "reg" and x[1][0] == "obj" and x[1][1] == vcls:
+                        attrs.add(x[2])
+                    if x[0] == "attr" and x[1][0] == "obj" and x[1][1] == vcls:
+                        attrs.add(x[2])
         # the object's own id (the registry key) is not state a holder can write
         for r in self.registries.values():
             if r["value_cls"] == vcls and r.get("id_attr"):
@@ -454,6 +524,7 @@ class E4(object):
     def _check_release(self, vcls, hcls, hattr, guard_attrs, construct):
         """inverse registration on disconnect"""
         ok = False
+        bad_step = None
         for p in self.model.paths("ws:onClose"):
             for x, _ in all_events(p):
                 if x["k"] in ("reg_set", "reg_del") and x["reg"][0] == "reg" and \
@@ -462,10 +533,25 @@ class E4(object):
                     ok = True
                 if x["k"] == "setattr" and x["obj"][0] == "obj" and x["obj"][1] == vcls \
                         and x["attr"] in guard_attrs:
-                    ok = True
-        self.add("rule_u", construct + " [release on disconnect]", "", ok,
-                 "" if ok else "the registration made at the retention site is never "
-                 "undone when the connection closes: the object can never be evicted")
+                    step = _counter_step(x)
+                    want = getattr(self, "_steps", {}).get(x["attr"])
+                    if step is not None and want:
+                        # a counter: the disconnect takes back exactly what the
+                        # retention added (otherwise it is not zero when no
+                        # connection is left)
+                        if -step in want and len(want) == 1:
+                            ok = True
+                        else:
+                            bad_step = (step, sorted(want))
+                    else:
+                        ok = True
+        detail = "" if ok else ("the registration made at the retention site is never "
+                                "undone when the connection closes: the object can never "
+                                "be evicted")
+        if not ok and bad_step is not None:
+            detail = ("the retention adds %s to the counter but the disconnect changes it by "
+                      "%s: it is not zero when no connection is left" % (bad_step[1], bad_step[0]))
+        self.add("rule_u", construct + " [release on disconnect]", "", ok, detail)
         return ok
 
     def entry_of(self, f):
